@@ -47,6 +47,9 @@ def run(repo: Repo, rep, tier: str):
     rep.count("files_in_scope", repo.consult_all())
     shadow_census(repo, rep, "C06")
     sampler_replay_guard(repo, rep, "C06")
+    # an edited payload must not be mistaken for "still the default" (omitted chunk = stale default after reload)
+    from . import c02
+    c02.drawn_waveforms(repo, rep, "C06")
 
 
 def _raw_valued(e: ast.AST, params: Set[str], raw_locals: Set[str]) -> bool:
@@ -262,7 +265,15 @@ def sampler_replay_guard(repo: Repo, rep, P: str):
                 else:
                     rep.ok(f"{P}.R2", rcon, f"{txt}  with len = {tr} (full current layout)", "current-format records are not classified legacy")
                 continue
-            rep.inconclusive(f"{P}.R2", rcon, txt, "legacy predicate of an unrecognised form", f"{rel}:{st.lineno}")
+            reads_fields = any(isinstance(x, ast.Attribute) and attr_chain(x) and attr_chain(x)[0] == "self" and not x.attr.isupper()
+                               and x.attr not in ("is_legacy",) for x in ast.walk(c))
+            if reads_fields:
+                rep.violation(f"{P}.R2", rcon, txt,
+                              f"the instrument is classified legacy when `{txt}`, a condition on field values that a record of the current "
+                              "layout with the PMAS signature can satisfy: such a sampler is saved by replaying its raw chunks and edits "
+                              "made after loading are lost", f"{rel}:{st.lineno}")
+            else:
+                rep.inconclusive(f"{P}.R2", rcon, txt, "legacy predicate of an unrecognised form", f"{rel}:{st.lineno}")
     rep.count("legacy_predicates", n_pred, 2)
     # not-legacy ⇒ captured chunks are dropped
     src = norm(rfn)
